@@ -79,14 +79,12 @@ Qed.
 Lemma decode_vec_eq : forall c s' bs,
   decode c (SVec s') bs =
   match dec_int c W64 bs with
-  | Some (n, r) => if PREALLOC_LIMIT <? n then None
-                   else wrap VList (dec_rep c s' (N.to_nat n) r)
+  | Some (n, r) => wrap VList (dec_rep c s' (N.to_nat n) r)
   | None => None
   end.
 Proof.
   intros c s' bs. simpl.
   destruct (dec_int c W64 bs) as [[n r]|]; [|reflexivity].
-  destruct (PREALLOC_LIMIT <? n); [reflexivity|].
   f_equal. generalize (N.to_nat n) as k. intros k. revert r.
   induction k as [|k IH]; intros r.
   - reflexivity.
@@ -400,9 +398,6 @@ Proof.
     + cbn [has_pick] in Hi. cbn [enc_pick dec_pick]. apply (IH Hw2). exact Hi.
 Qed.
 
-Lemma limit_lt_u64 : forall n, n <= PREALLOC_LIMIT -> n < iw_max W64.
-Proof. intros n H. unfold PREALLOC_LIMIT in H. simpl. lia. Qed.
-
 Lemma rt_all : forall c s, rt c s.
 Proof.
   intros c. apply schema_ind'; unfold rt.
@@ -414,9 +409,8 @@ Proof.
   - (* string *) intros _ v rest Hv. destruct v as [| | l | | | | | |]; try contradiction.
     cbn [has_schema] in Hv. destruct Hv as [Hlen _].
     cbn [encode decode]. rewrite <- app_assoc.
-    rewrite dec_enc_int by (apply limit_lt_u64; exact Hlen).
-    assert (Hl : (PREALLOC_LIMIT <? N.of_nat (length l)) = false) by (apply N.ltb_ge; exact Hlen).
-    rewrite Hl. rewrite Nat2N.id. rewrite take_app. reflexivity.
+    rewrite dec_enc_int by exact Hlen.
+    rewrite Nat2N.id. rewrite take_app. reflexivity.
   - (* option *) intros s IH Hwf v rest Hv. cbn [schema_wf] in Hwf.
     destruct v as [| | | | v' | | | |]; try contradiction.
     + reflexivity.
@@ -427,9 +421,8 @@ Proof.
     destruct v as [| | | | | l | | |]; try contradiction.
     cbn [has_schema] in Hv. destruct Hv as [Hlen Hl].
     rewrite decode_vec_eq. cbn [encode]. rewrite <- app_assoc.
-    rewrite dec_enc_int by (apply limit_lt_u64; exact Hlen).
-    assert (Hlim : (PREALLOC_LIMIT <? N.of_nat (length l)) = false) by (apply N.ltb_ge; exact Hlen).
-    rewrite Hlim. rewrite Nat2N.id.
+    rewrite dec_enc_int by exact Hlen.
+    rewrite Nat2N.id.
     rewrite (rt_rep c s (IH Hwf)) by exact Hl. reflexivity.
   - (* tuple *) intros ss HF Hwf v rest Hv. cbn [schema_wf] in Hwf.
     destruct v as [| | | | | | vs | |]; try contradiction.
@@ -556,7 +549,6 @@ Proof.
     apply N.eqb_eq in H1. subst b. inversion H; subst. exists [1]. splits. apply R_refl.
   - (* string *) intros bs v rest Hok H. cbn [decode] in H.
     destruct (dec_int c W64 bs) as [[n r]|] eqn:Hd; [|discriminate].
-    destruct (PREALLOC_LIMIT <? n) eqn:Hlim; [discriminate|]. apply N.ltb_ge in Hlim.
     apply wrap_inv in H. destruct H as [l [Ht Hv]]. subst v.
     apply dec_int_inv in Hd; [|exact Hok]. destruct Hd as [p1 [Hbs [Hn HR]]]. subst bs.
     apply take_inv in Ht. destruct Ht as [Hr Hlen]. subst r.
@@ -565,7 +557,7 @@ Proof.
     assert (Hn' : N.of_nat (length l) = n) by (rewrite Hlen; apply N2Nat.id).
     exists (p1 ++ l). cbn [has_schema]. splits.
     + rewrite app_assoc. reflexivity.
-    + rewrite Hn'. exact Hlim.
+    + rewrite Hn'. exact Hn.
     + exact Hokl.
     + cbn [encode]. rewrite Hn'. apply R_app; [exact HR|apply R_refl].
   - (* option *) intros s IH bs v rest Hok H. cbn [decode] in H.
@@ -582,7 +574,6 @@ Proof.
     + cbn [encode]. apply R_cons. exact HR.
   - (* vec *) intros s IH bs v rest Hok H. rewrite decode_vec_eq in H.
     destruct (dec_int c W64 bs) as [[n r]|] eqn:Hd; [|discriminate].
-    destruct (PREALLOC_LIMIT <? n) eqn:Hlim; [discriminate|]. apply N.ltb_ge in Hlim.
     apply wrap_inv in H. destruct H as [l [Hrep Hv]]. subst v.
     apply dec_int_inv in Hd; [|exact Hok]. destruct Hd as [p1 [Hbs [Hn HR]]]. subst bs.
     apply bytes_ok_app in Hok. destruct Hok as [_ Hok1].
@@ -591,7 +582,7 @@ Proof.
     assert (Hn' : N.of_nat (length l) = n) by (rewrite Hlen; apply N2Nat.id).
     exists (p1 ++ p2). cbn [has_schema]. splits.
     + rewrite app_assoc. reflexivity.
-    + rewrite Hn'. exact Hlim.
+    + rewrite Hn'. exact Hn.
     + exact HF.
     + cbn [encode]. rewrite Hn'. apply R_app; assumption.
   - (* tuple *) intros ss HF bs v rest Hok H. rewrite decode_tuple_eq in H.
@@ -687,7 +678,7 @@ Example ex_schema : schema :=
 
 Example ex_has_schema : has_schema ex_schema ex_value.
 Proof.
-  unfold ex_schema, ex_value, bytes_ok. simpl. unfold PREALLOC_LIMIT.
+  unfold ex_schema, ex_value, bytes_ok. simpl.
   repeat (split || constructor || lia); vm_compute; discriminate.
 Qed.
 
